@@ -191,7 +191,13 @@ theorem owner_lookup_exact (h : Store) (l : List ObjId) (pre n : String) :
 
 /-- **owner_bulk_atomic**: each of the four setters of `AbstractParametrizable` raises exactly when
 the list-level call does, and then nothing has changed, `fireParameterChanged` has not been called
-and (for `matchParametersValues`) no flag is reported. -/
+and (for `matchParametersValues`) no flag is reported.
+
+Assumption (stated in `props/C02.json`): the owner's `fireParameterChanged` does not raise — it is
+the base class's empty default / a recorder in the model.  The four setters call it *after* the list
+has been updated (AbstractParametrizable.h:58-83); a subclass whose override raises
+(`ReparametrizationFunctionWrapper`, the discrete distributions) makes the owner's call raise with
+every value already applied.  That is outside this theorem: it is about the forwarding layer. -/
 theorem owner_bulk_atomic (h : Store) (l src : List ObjId) (pre n : String) (v : Rat)
     (vl : Valid h l) (nds : (names h src).Nodup) :
     ((apSetAllParametersValues h l src).err = (setAllParametersValues h l src).err ∧
@@ -365,6 +371,7 @@ theorem xcheck_sound (n : Nat) (s : State) (inv : Inv s) (op : XOp) (safe : op.n
     · simp [ro]
   have hl := clauseXLookup_sound s op
   have ha := clauseXAssign_sound n inv op
+  have hc := clauseXOwnerCopy_sound n inv op
   have hf := xstep_fired_none s op
   cases op with
   | base o =>
@@ -373,25 +380,27 @@ theorem xcheck_sound (n : Nat) (s : State) (inv : Inv s) (op : XOp) (safe : op.n
       clauseNamespace_sound n inv o safe, clauseNamespaceGuarded_sound n inv o safe]
     rfl
   | setAllParamsA k j =>
-    simp only [xcheckStep, hn, hok, hro, hl, ha, hf (fun o => by simp)]; simp
+    simp only [xcheckStep, hn, hok, hro, hl, ha, hc, hf (fun o => by simp)]; simp
   | setParamsA k j =>
-    simp only [xcheckStep, hn, hok, hro, hl, ha, hf (fun o => by simp)]; simp
+    simp only [xcheckStep, hn, hok, hro, hl, ha, hc, hf (fun o => by simp)]; simp
   | nth k i =>
-    simp only [xcheckStep, hn, hok, hro, hl, ha, hf (fun o => by simp)]; simp
+    simp only [xcheckStep, hn, hok, hro, hl, ha, hc, hf (fun o => by simp)]; simp
   | param k x =>
-    simp only [xcheckStep, hn, hok, hro, hl, ha, hf (fun o => by simp)]; simp
+    simp only [xcheckStep, hn, hok, hro, hl, ha, hc, hf (fun o => by simp)]; simp
   | apAddNull k =>
-    simp only [xcheckStep, hn, hok, hro, hl, ha, hf (fun o => by simp)]; simp
+    simp only [xcheckStep, hn, hok, hro, hl, ha, hc, hf (fun o => by simp)]; simp
   | apHas k x =>
-    simp only [xcheckStep, hn, hok, hro, hl, ha, hf (fun o => by simp)]; simp
+    simp only [xcheckStep, hn, hok, hro, hl, ha, hc, hf (fun o => by simp)]; simp
   | apParam k x =>
-    simp only [xcheckStep, hn, hok, hro, hl, ha, hf (fun o => by simp)]; simp
+    simp only [xcheckStep, hn, hok, hro, hl, ha, hc, hf (fun o => by simp)]; simp
   | apGetValue k x =>
-    simp only [xcheckStep, hn, hok, hro, hl, ha, hf (fun o => by simp)]; simp
+    simp only [xcheckStep, hn, hok, hro, hl, ha, hc, hf (fun o => by simp)]; simp
   | apAt k i =>
-    simp only [xcheckStep, hn, hok, hro, hl, ha, hf (fun o => by simp)]; simp
+    simp only [xcheckStep, hn, hok, hro, hl, ha, hc, hf (fun o => by simp)]; simp
   | apNameNoNs k x =>
-    simp only [xcheckStep, hn, hok, hro, hl, ha, hf (fun o => by simp)]; simp
+    simp only [xcheckStep, hn, hok, hro, hl, ha, hc, hf (fun o => by simp)]; simp
+  | apCopy k j =>
+    simp only [xcheckStep, hn, hok, hro, hl, ha, hc, hf (fun o => by simp)]; simp
 
 /-- … hence along every guarded history from the empty machine. -/
 theorem xcheck_sound_run (n : Nat) (ops : List XOp) (safe : SafeRun State.init ops) (op : XOp)
